@@ -1354,7 +1354,7 @@ func indices(start_, end_ Value, len int) (start, end int, err error) {
 func asIndex(v Value, len int, result *int) error {
 	if v != nil && v != None {
 		var err error
-		*result, err = AsInt32(v)
+		*result, err = asSaturatedInt32(v)
 		if err != nil {
 			return err
 		}
@@ -1363,6 +1363,21 @@ func asIndex(v Value, len int, result *int) error {
 		}
 	}
 	return nil
+}
+
+// asSaturatedInt32 is like AsInt32 but maps an int beyond the int32
+// range to the nearest int32. It is used for slice indices and strides,
+// which are clamped to the length of the sequence (< 2^31) in any case.
+func asSaturatedInt32(v Value) (int, error) {
+	if i, ok := v.(Int); ok {
+		if _, big := i.get(); big != nil {
+			if big.Sign() < 0 {
+				return -1 << 31, nil
+			}
+			return 1<<31 - 1, nil
+		}
+	}
+	return AsInt32(v)
 }
 
 // setArgs sets the values of the formal parameters of function fn in
